@@ -640,3 +640,24 @@ func (c *Ctx) MayReachPath(fn *ssa.Function, targets func(*ssa.Function) bool, m
 	}
 	return nil
 }
+
+// resolveLoad: a load of a local/heap cell is replaced by the value of the store that reaches it (same block or a
+// single-predecessor chain), when that can be determined.
+func resolveLoad(v ssa.Value) ssa.Value {
+	for i := 0; i < 4; i++ {
+		u, ok := v.(*ssa.UnOp)
+		if !ok || u.Op != token.MUL {
+			return v
+		}
+		al, ok := u.X.(*ssa.Alloc)
+		if !ok {
+			return v
+		}
+		st := lastStoreBefore(al, u)
+		if st == nil {
+			return v
+		}
+		v = stripConv(st.Val)
+	}
+	return v
+}
